@@ -25,9 +25,9 @@ def run(ctx):
     repo_lib.model_check(ctx,
                          [(ctx.q("MC_Repo_quick", "MC_Repo"), ctx.q(6, 10), ctx.q(900, 3000))],
                          [("MC_Repo_neg_dropother", "InvC13")])
-    repo_lib.simulate(ctx, ctx.q(60, 1500))
-    repo_lib.record_and_judge(ctx, "C13", ctx.q(60, 1500), ctx.q(7, 9), is_mine, nontrivial)
-    repo_lib.replay(ctx, "C13", ctx.q(30, 900))
+    repo_lib.simulate(ctx, ctx.q(50, 600))
+    repo_lib.record_and_judge(ctx, "C13", ctx.q(60, 600), ctx.q(7, 9), is_mine, nontrivial)
+    repo_lib.replay(ctx, "C13", ctx.q(25, 300))
     ctx.cov["rule"] = ("evaluations = real reconciliations of concurrent operations judged by TLC (I->S) + replayed model steps (S->I); "
                        "non-trivial = the reconciliation rebased at least one commit or left >= 2 heads; distinct by the full event")
     ctx.assumptions += repo_lib.COMMON_ASSUMPTIONS
